@@ -365,6 +365,11 @@ pub fn fuzz_domain(c: &mut Case) -> bool {
     true
 }
 
+/// cases decoded from byte strings (see `engine::decoded_strategy`)
+pub fn bytes_strategy(_tier: Tier) -> BoxedStrategy<Case> {
+    decoded_strategy(fuzz_domain)
+}
+
 pub fn property() -> Property {
     Property {
         id: "C14",
@@ -372,7 +377,7 @@ pub fn property() -> Property {
         assumptions: &["insertions are only attempted between live nodes (try_add_edge documents a panic otherwise); histories stop when the inner graph's index space is exhausted"],
         both_profiles: false,
         subs: vec![
-            sub_fuzz("acyclic/history", 600_000, 4_000_000, strategy, run, fuzz_domain),
+            sub_fuzz("acyclic/history", 600_000, 4_000_000, strategy, run, fuzz_domain), sub("acyclic/history-from-bytes", 300_000, 4_000_000, bytes_strategy, run),
             sub("acyclic/try_from", 1_500_000, 30_000_000, t_strategy, t_run),
         ],
     }
